@@ -198,6 +198,9 @@ structure TxnState (α κ : Type) where
   balance : Amount κ := []                    -- running sum of balance deltas
   bal : Balance α κ
   events : List (PriceEvent κ) := []          -- in order
+  /-- ghost (not in the Rust): the balance delta contributed by each posting so far, in order
+  (`zero` for the omitted posting); `balance` is always their sum. -/
+  deltas : List (PostingAmt κ) := []
 
 def stepPosting (date : Date) (st : TxnState α κ) (idx : Nat) (p : RPosting α κ) :
     Outcome (BkErr κ) (TxnState α κ) :=
@@ -207,7 +210,8 @@ def stepPosting (date : Date) (st : TxnState α κ) (idx : Nat) (p : RPosting α
           postings := st.postings ++ [⟨p.account, ev.amount.toAmount, ev.converted⟩]
           balance := st.balance.addPosting ev.delta
           bal := bal'
-          events := st.events ++ pe.toList }
+          events := st.events ++ pe.toList
+          deltas := st.deltas ++ [ev.delta] }
   | .ok (none, pe, bal') =>
     match st.unfilled with
     | some first => .err (.undeducible first idx)
@@ -216,7 +220,8 @@ def stepPosting (date : Date) (st : TxnState α κ) (idx : Nat) (p : RPosting α
             postings := st.postings ++ [⟨p.account, [], none⟩]
             unfilled := some idx
             bal := bal'
-            events := st.events ++ pe.toList }
+            events := st.events ++ pe.toList
+            deltas := st.deltas ++ [.zero] }
   | .err e => .err e
   | .panic s => .panic s
   | .fuelOut => .fuelOut
@@ -239,7 +244,7 @@ structure TxnResult (α κ : Type) where
 /-- `add_transaction`. -/
 def addTransaction (prec : κ → Option Nat) (bal : Balance α κ) (t : RTxn α κ) :
     Outcome (BkErr κ) (TxnResult α κ) :=
-  match loopPostings t.date ⟨[], none, [], bal, []⟩ 0 t.posts with
+  match loopPostings t.date ⟨[], none, [], bal, [], []⟩ 0 t.posts with
   | .ok st =>
     match st.unfilled with
     | some u =>
